@@ -39,6 +39,7 @@ func runC08(c *engine.Ctx, tier string) {
 	rp, err2 := rollbackPaths(c)
 	waitTable(c, "C08.1a", "Server.Set", sp, err1)
 	waitTable(c, "C08.1b", "Server.RollbackTransaction", rp, err2)
+	extensionSearch(c)
 	createWatchRespond(c, "C08.2a", "Server.Set", sp, err1, true)
 	createWatchRespond(c, "C08.2b", "Server.RollbackTransaction", rp, err2, false)
 }
@@ -314,4 +315,62 @@ func hasArg(args []string, want string) bool {
 		}
 	}
 	return false
+}
+
+// extensionSearch: the transaction strategy (what the caller asked to wait for) is looked up among
+// all extensions of the request.
+func extensionSearch(c *engine.Ctx) {
+	o := c.Custom("C08.3", "K-enum(search loop)", "extractExtension examines every extension: it leaves the loop only by returning under 'registered extension ∧ Id == wanted id'; no break",
+		"the stage the caller asked to wait for (and the type/version overrides) must be found wherever the extension stands in the request")
+	defer o.Done(1)
+	paths, err := c.A.PathsOpt(pkgNbGnmi, engine.PathOpts{Roots: []string{"v2.extractExtension"}, NoInline: true})
+	if err != nil {
+		o.Undecided("extractExtension", err.Error())
+		return
+	}
+	n := 0
+	for _, p := range paths {
+		inLoop := ""
+		for i := range p.Events {
+			e := &p.Events[i]
+			switch e.Kind {
+			case engine.EvLoopEnter:
+				if e.Range == "$ext" {
+					inLoop = e.LoopID
+				}
+			case engine.EvLoopExit:
+				inLoop = ""
+			case engine.EvBranch:
+				if inLoop != "" && e.Tok.String() == "break" {
+					o.Eval(1)
+					o.Fail(&engine.Violation{Key: "extractExtension|break in search loop", Pos: c.P.Pos(e.Pos), Func: p.Root.Name(),
+						Msg: "the search over the request's extensions stops early (break): an extension that follows is never found", Found: c.RenderConds(engine.CondsBefore(p, i))})
+					return
+				}
+			case engine.EvReturn:
+				if inLoop == "" {
+					continue
+				}
+				n++
+				o.Eval(1)
+				isReg, idEq := false, false
+				for _, l := range engine.CondsBefore(p, i) {
+					if strings.HasPrefix(l.L, "ok(elem($ext).Ext.(*gnmi_ext.Extension_RegisteredExt))") && l.R == "true" && l.Mask == 2 {
+						isReg = true
+					}
+					if (strings.HasSuffix(l.L, ".RegisteredExt.Id") && l.R == "$extID" || l.L == "$extID" && strings.HasSuffix(l.R, ".RegisteredExt.Id")) && l.Mask == 2 {
+						idEq = true
+					}
+				}
+				if !isReg || !idEq {
+					o.Fail(&engine.Violation{Key: "extractExtension|return without match", Pos: c.P.Pos(e.Pos), Func: p.Root.Name(),
+						Msg: "the search returns from inside the loop on a path that does not establish 'registered extension with the wanted id'", Found: c.RenderConds(engine.CondsBefore(p, i))})
+					return
+				}
+			}
+		}
+	}
+	if n > 0 {
+		o.Site("extractExtension: every in-loop return is under the match condition")
+	}
 }
